@@ -39,6 +39,7 @@ import (
 	"github.com/hanwen/go-fuse/v2/fuse"
 	digest "github.com/opencontainers/go-digest"
 	ocispec "github.com/opencontainers/image-spec/specs-go/v1"
+	"github.com/sirupsen/logrus"
 	bolt "go.etcd.io/bbolt"
 	"verif/harness/hx"
 )
@@ -84,9 +85,118 @@ type Case struct {
 	Base    uint32     `json:"base"`
 	BSize   int64      `json:"bsize"`
 	Fetched int64      `json:"fetched"`
-	Stack   bool       `json:"stack"` // also evaluate the stack oracle
+	Stack   bool       `json:"stack"`          // also evaluate the stack oracle
+	Fake    *FakeTree  `json:"fake,omitempty"` // store == "fake": an arbitrary metadata tree served by an in-memory metadata.Reader
 	Ops     []Op       `json:"ops"`
 }
+
+// FakeTree is a metadata view given directly (no tar, no TOC): it reaches children maps and ids that the real stores
+// cannot produce from a small blob (ids near 2^32, which make inodeOfID fail and the node code answer EIO).
+type FakeKid struct {
+	N  string `json:"n"`
+	ID uint32 `json:"id"`
+}
+type FakeNode struct {
+	ID   uint32            `json:"id"`
+	Size int64             `json:"size,omitempty"`
+	Mode uint32            `json:"mode"` // os.FileMode bits
+	UID  int               `json:"uid,omitempty"`
+	GID  int               `json:"gid,omitempty"`
+	Maj  int               `json:"maj,omitempty"`
+	Min  int               `json:"min,omitempty"`
+	NL   int               `json:"nl,omitempty"`
+	Link string            `json:"link,omitempty"`
+	X    map[string]string `json:"x,omitempty"`
+	Kids []FakeKid         `json:"kids,omitempty"`
+}
+type FakeTree struct {
+	Root  uint32     `json:"root"`
+	Nodes []FakeNode `json:"nodes"`
+}
+
+const maxServableID = ^uint32(0) - 3
+
+func (t *FakeTree) hasHugeID() bool {
+	for _, n := range t.Nodes {
+		if n.ID > maxServableID {
+			return true
+		}
+	}
+	return false
+}
+
+type fakeReader struct {
+	t     *FakeTree
+	nodes map[uint32]*FakeNode
+}
+
+func newFakeReader(t *FakeTree) *fakeReader {
+	f := &fakeReader{t: t, nodes: map[uint32]*FakeNode{}}
+	for i := range t.Nodes {
+		f.nodes[t.Nodes[i].ID] = &t.Nodes[i]
+	}
+	return f
+}
+func (f *fakeReader) attr(n *FakeNode) metadata.Attr {
+	a := metadata.Attr{Size: n.Size, LinkName: n.Link, Mode: os.FileMode(n.Mode), UID: n.UID, GID: n.GID, DevMajor: n.Maj, DevMinor: n.Min,
+		NumLink: n.NL, ModTime: time.Unix(1700000000, 0), Xattrs: map[string][]byte{}}
+	for k, v := range n.X {
+		a.Xattrs[k] = []byte(v)
+	}
+	return a
+}
+func (f *fakeReader) RootID() uint32           { return f.t.Root }
+func (f *fakeReader) TOCDigest() digest.Digest { return digest.FromString("fake-toc") }
+func (f *fakeReader) GetOffset(id uint32) (int64, error) {
+	return 0, fmt.Errorf("fake: no offsets")
+}
+func (f *fakeReader) GetAttr(id uint32) (metadata.Attr, error) {
+	n, ok := f.nodes[id]
+	if !ok {
+		return metadata.Attr{}, fmt.Errorf("fake: no node %d", id)
+	}
+	return f.attr(n), nil
+}
+func (f *fakeReader) GetChild(pid uint32, base string) (uint32, metadata.Attr, error) {
+	p, ok := f.nodes[pid]
+	if !ok {
+		return 0, metadata.Attr{}, fmt.Errorf("fake: no node %d", pid)
+	}
+	for _, k := range p.Kids {
+		if k.N == base {
+			c, ok := f.nodes[k.ID]
+			if !ok {
+				return 0, metadata.Attr{}, fmt.Errorf("fake: dangling child")
+			}
+			return k.ID, f.attr(c), nil
+		}
+	}
+	return 0, metadata.Attr{}, fmt.Errorf("fake: no child %q", base)
+}
+func (f *fakeReader) ForeachChild(id uint32, fn func(name string, id uint32, mode os.FileMode) bool) error {
+	p, ok := f.nodes[id]
+	if !ok {
+		return fmt.Errorf("fake: no node %d", id)
+	}
+	for _, k := range p.Kids {
+		c, ok := f.nodes[k.ID]
+		if !ok {
+			return fmt.Errorf("fake: dangling child")
+		}
+		if !fn(k.N, k.ID, os.FileMode(c.Mode)) {
+			break
+		}
+	}
+	return nil
+}
+func (f *fakeReader) OpenFile(id uint32) (metadata.File, error) {
+	return nil, fmt.Errorf("fake: no contents")
+}
+func (f *fakeReader) OpenFileWithPreReader(id uint32, preRead func(id uint32, chunkOffset, chunkSize int64, chunkDigest string, r io.Reader) error) (metadata.File, error) {
+	return nil, fmt.Errorf("fake: no contents")
+}
+func (f *fakeReader) Clone(sr *io.SectionReader) (metadata.Reader, error) { return f, nil }
+func (f *fakeReader) Close() error                                        { return nil }
 
 // ---------------------------------------------------------------------------------------------
 // building layers
@@ -209,11 +319,21 @@ type openLayer struct {
 	close func()
 }
 
+func openFake(c Case) (*openLayer, error) {
+	return openRootOn(newFakeReader(c.Fake), digest.FromString("fake-layer"), digest.FromString("fake-toc"), c.Opaque, c.Base, c.BSize, c.Fetched)
+}
+
 func openRoot(b *builtLayer, store string, opaque int, base uint32, bsize, fetched int64) (*openLayer, error) {
 	mr, err := openStore(store, b)
 	if err != nil {
 		return nil, fmt.Errorf("store: %w", err)
 	}
+	return openRootOn(mr, b.dg, b.toc, opaque, base, bsize, fetched)
+}
+
+func openRootOn(mr metadata.Reader, dg, toc digest.Digest, opaque int, base uint32, bsize, fetched int64) (*openLayer, error) {
+	b := &builtLayer{dg: dg, toc: toc}
+	var err error
 	vr, err := reader.NewReader(mr, cache.NewMemoryCache(), b.dg)
 	if err != nil {
 		mr.Close()
@@ -240,7 +360,7 @@ func openRoot(b *builtLayer, store string, opaque int, base uint32, bsize, fetch
 // observations
 
 type FAttr struct {
-	Ino, Size, Blocks       uint64
+	Ino, Size, Blocks        uint64
 	Mode, UID, GID, Rdev, NL uint32
 }
 
@@ -288,7 +408,7 @@ type lookupRes struct {
 	inode   *fusefs.Inode
 	attr    FAttr // EntryOut.Attr as filled by the node
 	gerrno  syscall.Errno
-	gattr   FAttr // Getattr of the returned node object
+	gattr   FAttr  // Getattr of the returned node object
 	servedM uint32 // mode as the go-fuse bridge reports it: (Attr.Mode & 07777) | StableAttr.Mode
 }
 
@@ -529,12 +649,19 @@ func hiddenName(isRoot bool, name string) bool {
 }
 
 func runNode(c Case) (res nodeRun) {
-	b, err := buildLayer(c.Layers[c.LI])
-	if err != nil {
-		res.skipped = "build: " + err.Error()
-		return
+	var ol *openLayer
+	var err error
+	if c.Fake != nil {
+		ol, err = openFake(c)
+	} else {
+		var b *builtLayer
+		b, err = buildLayer(c.Layers[c.LI])
+		if err != nil {
+			res.skipped = "build: " + err.Error()
+			return
+		}
+		ol, err = openRoot(b, c.Store, c.Opaque, c.Base, c.BSize, c.Fetched)
 	}
-	ol, err := openRoot(b, c.Store, c.Opaque, c.Base, c.BSize, c.Fetched)
 	if err != nil {
 		res.skipped = "open: " + err.Error()
 		return
@@ -557,7 +684,9 @@ func runNode(c Case) (res nodeRun) {
 			return
 		}
 	}
-	bad := func(format string, a ...any) { res.problems = append(res.problems, problem{"", fmt.Sprintf(format, a...)}) }
+	bad := func(format string, a ...any) {
+		res.problems = append(res.problems, problem{"", fmt.Sprintf(format, a...)})
+	}
 	kidByName := map[string]MChild{}
 	for _, k := range kids {
 		kidByName[k.Name] = k
@@ -638,6 +767,32 @@ func runNode(c Case) (res nodeRun) {
 			} else {
 				ob = Obs{Z: append([]int64{0}, fromFuse(&ao.Attr).list()...)}
 			}
+		case "readlink":
+			b, errno := n.(fusefs.NodeReadlinker).Readlink(context.Background())
+			if errno != 0 {
+				bad("Readlink failed: %d", int(errno))
+			}
+			if string(b) != selfAttr.LinkName {
+				bad("Readlink returned %q, the entry's link name is %q", string(b), selfAttr.LinkName)
+			}
+			ob = Obs{Z: []int64{int64(len(b))}}
+		case "fgetattr":
+			fh, _, errno := n.(fusefs.NodeOpener).Open(context.Background(), 0)
+			if errno != 0 {
+				bad("Open of a regular file failed: %d", int(errno))
+				ob = Obs{Z: []int64{int64(errno)}}
+				break
+			}
+			var ao fuse.AttrOut
+			errno = fh.(fusefs.FileGetattrer).Getattr(context.Background(), &ao)
+			if errno != 0 {
+				ob = Obs{Z: []int64{int64(errno)}}
+			} else {
+				ob = Obs{Z: append([]int64{0}, fromFuse(&ao.Attr).list()...)}
+			}
+			if rl, ok := fh.(fusefs.FileReleaser); ok {
+				rl.Release(context.Background())
+			}
 		case "getxattr":
 			sz, errno, v := doGetxattr(n, o.Name, o.Dlen)
 			ob = Obs{Z: []int64{int64(sz), int64(errno)}, S: []string{v}}
@@ -662,182 +817,191 @@ func runNode(c Case) (res nodeRun) {
 	}
 
 	// ---- model-free oracle on the final state of this node (clauses of C07) ----
-	ents, errno := doReaddir(n)
-	if errno != 0 {
-		bad("Readdir failed with errno %d", int(errno))
-	}
-	listed := map[string][]dirent{}
-	for _, e := range ents {
-		listed[e.Name] = append(listed[e.Name], e)
-	}
-	// hidden names never listed
-	for _, e := range ents {
-		if hiddenName(isRoot, e.Name) {
-			bad("hidden name %q is listed (mode %o) in %q", e.Name, e.Mode, c.Path)
+	// (a fake tree with ids beyond the 32-bit inode space legitimately answers EIO: such a case is compared with the model
+	// only; the clauses below are stated for layers whose ids fit)
+	func() {
+		if c.Fake != nil && c.Fake.hasHugeID() {
+			res.stats = append(res.stats, "fake.huge-id")
+			return
 		}
-		if isRoot && e.Name == estargz.TOCTarName {
-			bad("TOC entry is listed in the root")
+		ents, errno := doReaddir(n)
+		if errno != 0 {
+			bad("Readdir failed with errno %d", int(errno))
 		}
-		if isRoot && e.Name == stateDir {
-			if _, real := kidByName[stateDir]; !real {
-				bad("state directory is listed")
+		listed := map[string][]dirent{}
+		for _, e := range ents {
+			listed[e.Name] = append(listed[e.Name], e)
+		}
+		// hidden names never listed
+		for _, e := range ents {
+			if hiddenName(isRoot, e.Name) {
+				bad("hidden name %q is listed (mode %o) in %q", e.Name, e.Mode, c.Path)
 			}
-		}
-	}
-	// probes: every child name, every whiteout target, listed names, a few absent ones
-	probes := map[string]bool{"zz-absent": true, estargz.PrefetchLandmark: true, estargz.NoPrefetchLandmark: true, opqMarker: true, estargz.TOCTarName: true}
-	for _, k := range kids {
-		probes[k.Name] = true
-		if strings.HasPrefix(k.Name, whPrefix) {
-			probes[k.Name[len(whPrefix):]] = true
-		}
-	}
-	for nm := range listed {
-		probes[nm] = true
-	}
-	inoOfID := map[uint32]uint64{}
-	idOfIno := map[uint64]uint32{}
-	noteIno := func(id uint32, ino uint64, where string) {
-		if p, ok := inoOfID[id]; ok && p != ino {
-			bad("metadata id %d is served with two inode numbers %d and %d (%s)", id, p, ino, where)
-		}
-		if p, ok := idOfIno[ino]; ok && p != id {
-			bad("inode number %d is served for two metadata ids %d and %d (%s)", ino, p, id, where)
-		}
-		inoOfID[id], idOfIno[ino] = ino, id
-		if ino>>32 != uint64(c.Base) || ino&0xffffffff < 3 {
-			bad("inode number %d outside the range of this layer or reserved (%s)", ino, where)
-		}
-	}
-	names := make([]string, 0, len(probes))
-	for nm := range probes {
-		names = append(names, nm)
-	}
-	sort.Strings(names)
-	for _, nm := range names {
-		r := doLookup(n, nm)
-		_, isListed := listed[nm]
-		if nm == "" || nm == "." || nm == ".." || (isRoot && nm == stateDir) {
-			continue // not names a kernel ever asks for / the deliberately hidden state directory
-		}
-		if hiddenName(isRoot, nm) && r.errno == 0 {
-			bad("hidden name %q resolves in Lookup", nm)
-		}
-		if isListed != (r.errno == 0) {
-			sig := ""
-			res.problems = append(res.problems, problem{sig, fmt.Sprintf("listing and Lookup disagree on %q in %q: listed=%v lookup errno=%d", nm, c.Path, isListed, int(r.errno))})
-			continue
-		}
-		if r.errno != 0 {
-			continue
-		}
-		if r.gerrno != 0 {
-			bad("Getattr of the looked-up %q failed: %d", nm, int(r.gerrno))
-			continue
-		}
-		if len(listed[nm]) != 1 {
-			bad("name %q listed %d times", nm, len(listed[nm]))
-			continue
-		}
-		de := listed[nm][0]
-		if de.Ino != r.attr.Ino || de.Ino != r.gattr.Ino || de.Ino != r.inode.StableAttr().Ino {
-			bad("inode numbers of %q differ: dirent %d, entry %d, getattr %d, stable %d", nm, de.Ino, r.attr.Ino, r.gattr.Ino, r.inode.StableAttr().Ino)
-		}
-		if de.Mode&sIFMT != r.servedM&sIFMT || de.Mode&sIFMT != r.gattr.Mode&sIFMT {
-			bad("file type of %q differs: dirent %o, entry %o, getattr %o", nm, de.Mode, r.servedM, r.gattr.Mode)
-		}
-		if mid, ok := layer.VerifNodeIDC07(r.inode.Operations()); ok {
-			noteIno(mid, de.Ino, nm)
-		}
-		_, real := kidByName[nm]
-		wh, hasWh := kidByName[whPrefix+nm]
-		switch {
-		case real:
-			if r.kind != "node" {
-				bad("real entry %q is served as %s", nm, r.kind)
+			if isRoot && e.Name == estargz.TOCTarName && c.Fake == nil { // (a fake tree may simply have an entry of that name)
+				bad("TOC entry is listed in the root")
 			}
-			if mid, _ := layer.VerifNodeIDC07(r.inode.Operations()); mid != kidByName[nm].ID {
-				bad("real entry %q is served from metadata id %d, want %d", nm, mid, kidByName[nm].ID)
-			}
-		case hasWh:
-			// whiteout shape: 0/0 character device, root owned, empty, one link — in the entry reply, in Getattr and in the listing
-			if r.kind != "whiteout" {
-				bad("whiteout target %q is served as %s", nm, r.kind)
-			}
-			for which, a := range map[string]FAttr{"entry": r.attr, "getattr": r.gattr} {
-				m := a.Mode
-				if which == "entry" {
-					m = r.servedM
-				}
-				if m != sIFCHR || a.Rdev != 0 || a.UID != 0 || a.GID != 0 || a.Size != 0 || a.NL != 1 {
-					bad("whiteout %q (%s) is not a plain 0/0 character device: mode %o rdev %d uid %d gid %d size %d nlink %d", nm, which, m, a.Rdev, a.UID, a.GID, a.Size, a.NL)
+			if isRoot && e.Name == stateDir {
+				if _, real := kidByName[stateDir]; !real {
+					bad("state directory is listed")
 				}
 			}
-			if de.Mode != sIFCHR {
-				bad("whiteout %q listed with mode %o", nm, de.Mode)
-			}
-			if mid, _ := layer.VerifNodeIDC07(r.inode.Operations()); mid != wh.ID {
-				bad("whiteout %q is served from metadata id %d, want %d", nm, mid, wh.ID)
-			}
-		default:
-			bad("name %q is served but the layer has neither it nor a whiteout for it", nm)
 		}
-	}
-	// every real, non-hidden child is served, and every whiteout without a real sibling
-	for _, k := range kids {
-		if k.Name == "." || k.Name == ".." || k.Name == "" {
-			continue
-		}
-		if !strings.HasPrefix(k.Name, whPrefix) && !hiddenName(isRoot, k.Name) {
-			if _, ok := listed[k.Name]; !ok {
-				bad("entry %q is not listed", k.Name)
+		// probes: every child name, every whiteout target, listed names, a few absent ones
+		probes := map[string]bool{"zz-absent": true, estargz.PrefetchLandmark: true, estargz.NoPrefetchLandmark: true, opqMarker: true, estargz.TOCTarName: true}
+		for _, k := range kids {
+			probes[k.Name] = true
+			if strings.HasPrefix(k.Name, whPrefix) {
+				probes[k.Name[len(whPrefix):]] = true
 			}
 		}
-		if strings.HasPrefix(k.Name, whPrefix) && k.Name != opqMarker {
-			t := k.Name[len(whPrefix):]
-			if t == "" || t == "." || t == ".." || hiddenName(isRoot, t) || (isRoot && t == stateDir) {
+		for nm := range listed {
+			probes[nm] = true
+		}
+		inoOfID := map[uint32]uint64{}
+		idOfIno := map[uint64]uint32{}
+		noteIno := func(id uint32, ino uint64, where string) {
+			if p, ok := inoOfID[id]; ok && p != ino {
+				bad("metadata id %d is served with two inode numbers %d and %d (%s)", id, p, ino, where)
+			}
+			if p, ok := idOfIno[ino]; ok && p != id {
+				bad("inode number %d is served for two metadata ids %d and %d (%s)", ino, p, id, where)
+			}
+			inoOfID[id], idOfIno[ino] = ino, id
+			if ino>>32 != uint64(c.Base) || ino&0xffffffff < 3 {
+				bad("inode number %d outside the range of this layer or reserved (%s)", ino, where)
+			}
+		}
+		names := make([]string, 0, len(probes))
+		for nm := range probes {
+			names = append(names, nm)
+		}
+		sort.Strings(names)
+		for _, nm := range names {
+			r := doLookup(n, nm)
+			_, isListed := listed[nm]
+			if nm == "" || nm == "." || nm == ".." || (isRoot && nm == stateDir) {
+				continue // not names a kernel ever asks for / the deliberately hidden state directory
+			}
+			if hiddenName(isRoot, nm) && r.errno == 0 {
+				bad("hidden name %q resolves in Lookup", nm)
+			}
+			if isListed != (r.errno == 0) {
+				sig := ""
+				res.problems = append(res.problems, problem{sig, fmt.Sprintf("listing and Lookup disagree on %q in %q: listed=%v lookup errno=%d", nm, c.Path, isListed, int(r.errno))})
 				continue
 			}
-			if _, ok := listed[t]; !ok {
-				bad("whiteout %q does not appear as %q", k.Name, t)
+			if r.errno != 0 {
+				continue
+			}
+			if r.gerrno != 0 {
+				bad("Getattr of the looked-up %q failed: %d", nm, int(r.gerrno))
+				continue
+			}
+			if len(listed[nm]) != 1 {
+				bad("name %q listed %d times", nm, len(listed[nm]))
+				continue
+			}
+			de := listed[nm][0]
+			if de.Ino != r.attr.Ino || de.Ino != r.gattr.Ino || de.Ino != r.inode.StableAttr().Ino {
+				bad("inode numbers of %q differ: dirent %d, entry %d, getattr %d, stable %d", nm, de.Ino, r.attr.Ino, r.gattr.Ino, r.inode.StableAttr().Ino)
+			}
+			if de.Mode&sIFMT != r.servedM&sIFMT || de.Mode&sIFMT != r.gattr.Mode&sIFMT {
+				bad("file type of %q differs: dirent %o, entry %o, getattr %o", nm, de.Mode, r.servedM, r.gattr.Mode)
+			}
+			if mid, ok := layer.VerifNodeIDC07(r.inode.Operations()); ok {
+				noteIno(mid, de.Ino, nm)
+			}
+			_, real := kidByName[nm]
+			wh, hasWh := kidByName[whPrefix+nm]
+			switch {
+			case real:
+				if r.kind != "node" {
+					bad("real entry %q is served as %s", nm, r.kind)
+				}
+				if mid, _ := layer.VerifNodeIDC07(r.inode.Operations()); mid != kidByName[nm].ID {
+					bad("real entry %q is served from metadata id %d, want %d", nm, mid, kidByName[nm].ID)
+				}
+			case hasWh:
+				// whiteout shape: 0/0 character device, root owned, empty, one link — in the entry reply, in Getattr and in the listing
+				if r.kind != "whiteout" {
+					bad("whiteout target %q is served as %s", nm, r.kind)
+				}
+				for which, a := range map[string]FAttr{"entry": r.attr, "getattr": r.gattr} {
+					m := a.Mode
+					if which == "entry" {
+						m = r.servedM
+					}
+					if m != sIFCHR || a.Rdev != 0 || a.UID != 0 || a.GID != 0 || a.Size != 0 || a.NL != 1 {
+						bad("whiteout %q (%s) is not a plain 0/0 character device: mode %o rdev %d uid %d gid %d size %d nlink %d", nm, which, m, a.Rdev, a.UID, a.GID, a.Size, a.NL)
+					}
+				}
+				if de.Mode != sIFCHR {
+					bad("whiteout %q listed with mode %o", nm, de.Mode)
+				}
+				if mid, _ := layer.VerifNodeIDC07(r.inode.Operations()); mid != wh.ID {
+					bad("whiteout %q is served from metadata id %d, want %d", nm, mid, wh.ID)
+				}
+			default:
+				bad("name %q is served but the layer has neither it nor a whiteout for it", nm)
 			}
 		}
-	}
-	// opaque xattr: for the configured names "y" iff the marker child exists; other overlay names absent
-	_, hasMarker := kidByName[opqMarker]
-	mine := map[string]bool{}
-	for _, a := range opaqueNames(c.Opaque) {
-		mine[a] = true
-	}
-	_, _, lnames := doListxattr(n, 4096)
-	for _, a := range []string{"trusted.overlay.opaque", "user.overlay.opaque"} {
-		if _, own := selfAttr.Xattrs[a]; own {
-			continue
-		}
-		_, errno, v := doGetxattr(n, a, 16)
-		want := hasMarker && mine[a]
-		if want != (errno == 0 && v == "y") || (!want && errno != syscall.ENODATA) {
-			bad("opaque xattr %q: marker=%v mode=%d got errno=%d value=%q", a, hasMarker, c.Opaque, int(errno), v)
-		}
-		cnt := 0
-		for _, l := range lnames {
-			if l == a {
-				cnt++
+		// every real, non-hidden child is served, and every whiteout without a real sibling
+		for _, k := range kids {
+			if k.Name == "." || k.Name == ".." || k.Name == "" {
+				continue
+			}
+			if !strings.HasPrefix(k.Name, whPrefix) && !hiddenName(isRoot, k.Name) {
+				if _, ok := listed[k.Name]; !ok {
+					bad("entry %q is not listed", k.Name)
+				}
+			}
+			if strings.HasPrefix(k.Name, whPrefix) && k.Name != opqMarker {
+				t := k.Name[len(whPrefix):]
+				if t == "" || t == "." || t == ".." || hiddenName(isRoot, t) || (isRoot && t == stateDir) {
+					continue
+				}
+				if _, ok := listed[t]; !ok {
+					bad("whiteout %q does not appear as %q", k.Name, t)
+				}
 			}
 		}
-		if (want && cnt != 1) || (!want && cnt != 0) {
-			bad("Listxattr lists %q %d times: marker=%v mode=%d", a, cnt, hasMarker, c.Opaque)
+		// opaque xattr: for the configured names "y" iff the marker child exists; other overlay names absent
+		_, hasMarker := kidByName[opqMarker]
+		mine := map[string]bool{}
+		for _, a := range opaqueNames(c.Opaque) {
+			mine[a] = true
 		}
-	}
-	for k := range selfAttr.Xattrs {
-		found := false
-		for _, l := range lnames {
-			found = found || l == k
+		_, _, lnames := doListxattr(n, 4096)
+		for _, a := range []string{"trusted.overlay.opaque", "user.overlay.opaque"} {
+			if _, own := selfAttr.Xattrs[a]; own {
+				continue
+			}
+			_, errno, v := doGetxattr(n, a, 16)
+			want := hasMarker && mine[a]
+			if want != (errno == 0 && v == "y") || (!want && errno != syscall.ENODATA) {
+				bad("opaque xattr %q: marker=%v mode=%d got errno=%d value=%q", a, hasMarker, c.Opaque, int(errno), v)
+			}
+			cnt := 0
+			for _, l := range lnames {
+				if l == a {
+					cnt++
+				}
+			}
+			if (want && cnt != 1) || (!want && cnt != 0) {
+				bad("Listxattr lists %q %d times: marker=%v mode=%d", a, cnt, hasMarker, c.Opaque)
+			}
 		}
-		if !found {
-			bad("Listxattr omits the entry's own xattr %q", k)
+		for k := range selfAttr.Xattrs {
+			found := false
+			for _, l := range lnames {
+				found = found || l == k
+			}
+			if !found {
+				bad("Listxattr omits the entry's own xattr %q", k)
+			}
 		}
-	}
+
+	}()
 
 	// ---- Coq term ----
 	mode := []string{"OpqAll", "OpqTrusted", "OpqUser"}[c.Opaque]
@@ -857,6 +1021,10 @@ func runNode(c Case) (res nodeRun) {
 			ops[i] = fmt.Sprintf("OLookup %s %s", coqStr(o.Name), hx.CoqBool(o.Reg && o.Name != ""))
 		case "forget":
 			ops[i] = fmt.Sprintf("OForget %s", coqStr(o.Name))
+		case "readlink":
+			ops[i] = "OReadlink"
+		case "fgetattr":
+			ops[i] = "OFGetattr"
 		case "getattr":
 			ops[i] = "OGetattr"
 		case "getxattr":
@@ -1277,7 +1445,9 @@ func runStack(c Case, seed uint64) (problems []problem, stat string) {
 		return nil, "stack.excluded." + why
 	}
 	r := hx.NewRng(seed)
-	bad := func(sig, format string, a ...any) { problems = append(problems, problem{sig, fmt.Sprintf(format, a...)}) }
+	bad := func(sig, format string, a ...any) {
+		problems = append(problems, problem{sig, fmt.Sprintf(format, a...)})
+	}
 	var served []map[string]*tnode // top-most first
 	image := map[string]*tnode{}
 	for i, l := range c.Layers {
@@ -1428,6 +1598,100 @@ func genLayer(r *hx.Rng, li int) []TarEnt {
 	return out
 }
 
+// genFake draws an arbitrary metadata tree: a root with up to 8 children (any reserved / marker / ordinary name, any file
+// type and attribute magnitude, ids up to 2^32-1) and one ordinary sub-directory "d" with a few children of its own.
+func genFake(r *hx.Rng) *FakeTree {
+	next := uint32(2)
+	id := func(huge bool) uint32 {
+		if huge {
+			return []uint32{maxServableID, maxServableID + 1, maxServableID + 2, ^uint32(0), maxServableID - 1}[r.Intn(5)]
+		}
+		next++
+		return next
+	}
+	mkNode := func(i uint32) FakeNode {
+		n := FakeNode{ID: i, NL: r.Pick(1, 6, 2, 1)}
+		if n.NL == 3 {
+			n.NL = []int{-1, 1 << 32, 70000}[r.Intn(3)]
+		}
+		perm := uint32([]int{0o644, 0o755, 0o600, 0o777, 0}[r.Intn(5)])
+		switch r.Pick(6, 3, 2, 2, 1, 1, 1, 1) {
+		case 0:
+			n.Mode = perm
+			n.Size = []int64{0, 1, 4096, 4097, 1 << 40, -1, 1<<63 - 1, -(1 << 62)}[r.Intn(8)]
+		case 1:
+			n.Mode = perm | uint32(os.ModeDir)
+		case 2:
+			n.Mode = perm | uint32(os.ModeSymlink)
+			n.Link = []string{"", "x", "../some/where"}[r.Intn(3)]
+			n.Size = int64(r.Intn(3))
+		case 3:
+			n.Mode = perm | uint32(os.ModeDevice|os.ModeCharDevice)
+			n.Maj, n.Min = []int{0, 1, 4095, 4096, 1 << 20, -1}[r.Intn(6)], []int{0, 3, 255, 256, 1 << 20, -1}[r.Intn(6)]
+		case 4:
+			n.Mode = perm | uint32(os.ModeDevice)
+			n.Maj, n.Min = r.Intn(5000), r.Intn(300000)
+		case 5:
+			n.Mode = perm | uint32(os.ModeNamedPipe)
+		case 6:
+			n.Mode = perm | uint32(os.ModeSocket)
+		case 7:
+			n.Mode = perm | uint32(os.ModeIrregular)
+		}
+		if r.Chance(1, 4) {
+			n.Mode |= uint32([]os.FileMode{os.ModeSetuid, os.ModeSetgid, os.ModeSticky, os.ModeSetuid | os.ModeSticky}[r.Intn(4)])
+		}
+		if r.Chance(1, 3) {
+			n.UID, n.GID = []int{1000, -1, 1 << 32, 65534}[r.Intn(4)], []int{1000, -2, 1<<32 + 5, 0}[r.Intn(4)]
+		}
+		if r.Chance(1, 5) {
+			n.X = map[string]string{[]string{"user.k0", "trusted.overlay.opaque", "user.overlay.opaque", "security.x"}[r.Intn(4)]: []string{"y", "", "v"}[r.Intn(3)]}
+		}
+		return n
+	}
+	t := &FakeTree{Root: 1}
+	if r.Chance(1, 12) {
+		t.Root = id(true)
+	}
+	root := mkNode(t.Root)
+	root.Mode = 0o755 | uint32(os.ModeDir)
+	pool := []string{"f", "g", "h", "e", whPrefix + "f", whPrefix + "g", whPrefix + "zz", whPrefix + "d", opqMarker, whPrefix + whPrefix + "f", whPrefix,
+		whPrefix + ".", estargz.PrefetchLandmark, estargz.NoPrefetchLandmark, whPrefix + estargz.NoPrefetchLandmark, stateDir, whPrefix + stateDir, ".", "..",
+		estargz.TOCTarName, "with space", "quo\"te"}
+	used := map[string]bool{}
+	var nodes []FakeNode
+	addKids := func(parent *FakeNode, n int, hugeOdds int) {
+		for i := 0; i < n; i++ {
+			nm := pool[r.Intn(len(pool))]
+			if used[fmt.Sprint(parent.ID, "/", nm)] {
+				continue
+			}
+			used[fmt.Sprint(parent.ID, "/", nm)] = true
+			k := mkNode(id(hugeOdds > 0 && r.Chance(1, hugeOdds)))
+			dup := false
+			for _, x := range nodes {
+				dup = dup || x.ID == k.ID
+			}
+			if dup || k.ID == t.Root {
+				continue
+			}
+			parent.Kids = append(parent.Kids, FakeKid{nm, k.ID})
+			nodes = append(nodes, k)
+		}
+	}
+	hugeOdds := []int{0, 3, 5, 8}[r.Intn(4)]
+	addKids(&root, r.Range(1, 8), hugeOdds)
+	if r.Chance(2, 3) && !used[fmt.Sprint(root.ID, "/d")] {
+		d := mkNode(id(false))
+		d.Mode = 0o700 | uint32(os.ModeDir)
+		addKids(&d, r.Range(0, 4), hugeOdds)
+		root.Kids = append(root.Kids, FakeKid{"d", d.ID})
+		nodes = append(nodes, d)
+	}
+	t.Nodes = append([]FakeNode{root}, nodes...)
+	return t
+}
+
 func layerDirs(l []TarEnt) []string {
 	ds := []string{""}
 	for _, e := range l {
@@ -1439,30 +1703,53 @@ func layerDirs(l []TarEnt) []string {
 }
 
 func genOps(r *hx.Rng, c Case, isDir bool) []Op {
-	l := c.Layers[c.LI]
 	var names []string
-	prefix := c.Path
-	if prefix != "" {
-		prefix += "/"
-	}
-	for _, e := range l {
-		if strings.HasPrefix(e.P, prefix) && !strings.Contains(e.P[len(prefix):], "/") {
-			b := e.P[len(prefix):]
-			names = append(names, b)
-			if strings.HasPrefix(b, whPrefix) {
-				names = append(names, b[len(whPrefix):])
+	regular := false
+	if c.Fake != nil {
+		for _, n := range c.Fake.Nodes {
+			for _, k := range n.Kids {
+				names = append(names, k.N)
+				if strings.HasPrefix(k.N, whPrefix) {
+					names = append(names, k.N[len(whPrefix):])
+				}
+			}
+		}
+	} else {
+		l := c.Layers[c.LI]
+		prefix := c.Path
+		if prefix != "" {
+			prefix += "/"
+		}
+		for _, e := range l {
+			if e.P == c.Path && e.K == "f" {
+				regular = true
+			}
+			if strings.HasPrefix(e.P, prefix) && !strings.Contains(e.P[len(prefix):], "/") {
+				b := e.P[len(prefix):]
+				names = append(names, b)
+				if strings.HasPrefix(b, whPrefix) {
+					names = append(names, b[len(whPrefix):])
+				}
 			}
 		}
 	}
 	nreal := len(names)
 	var looked []string
-	names = append(names, "zz", "f", ".", "..", stateDir, estargz.PrefetchLandmark, estargz.NoPrefetchLandmark, whPrefix + "f", "")
+	names = append(names, "zz", "f", ".", "..", stateDir, estargz.PrefetchLandmark, estargz.NoPrefetchLandmark, whPrefix+"f", "")
 	xnames := []string{"trusted.overlay.opaque", "user.overlay.opaque", "user.k0", "user.k1", "security.none"}
 	n := r.Range(3, 14)
 	var ops []Op
 	for i := 0; i < n; i++ {
 		if !isDir {
-			switch r.Pick(2, 3, 2) {
+			switch r.Pick(2, 3, 2, 2, 2) {
+			case 3:
+				ops = append(ops, Op{Op: "readlink"})
+			case 4:
+				if regular {
+					ops = append(ops, Op{Op: "fgetattr"})
+				} else {
+					ops = append(ops, Op{Op: "readlink"})
+				}
 			case 0:
 				ops = append(ops, Op{Op: "getattr"})
 			case 1:
@@ -1472,7 +1759,9 @@ func genOps(r *hx.Rng, c Case, isDir bool) []Op {
 			}
 			continue
 		}
-		switch r.Pick(20, 45, 8, 5, 10, 6, 6) {
+		switch r.Pick(20, 45, 8, 5, 10, 6, 6, 2) {
+		case 7:
+			ops = append(ops, Op{Op: "readlink"})
 		case 0:
 			ops = append(ops, Op{Op: "readdir"})
 		case 1:
@@ -1515,6 +1804,7 @@ var stackEmptyDB int
 
 func main() {
 	ctx := hx.Start()
+	logrus.SetOutput(io.Discard) // node.go logs every error it reports through the state file
 	defer func() {
 		if boltDB != nil {
 			boltDB.Close()
@@ -1544,6 +1834,13 @@ func main() {
 			ctx.Count("op." + o.Op)
 		}
 		ctx.Count("store." + c.Store)
+		if c.Fake != nil {
+			for _, ob := range res.obs {
+				if len(ob.Z) == 1 && ob.Z[0] == int64(syscall.EIO) {
+					ctx.Count("fake.answer.eio")
+				}
+			}
+		}
 		ctx.Count(fmt.Sprintf("opaque.%d", c.Opaque))
 		if c.Path == "" {
 			ctx.Count("node.root")
@@ -1584,6 +1881,19 @@ func main() {
 	r := hx.NewRng(ctx.Seed)
 	for guard := 0; ncases < ctx.N && guard < 100*ctx.N+1000; guard++ {
 		g := r.Fork()
+		if g.Chance(1, 3) {
+			// arbitrary metadata trees through the in-memory fake store (two node cases: the root and the directory "d")
+			for k := 0; k < 4; k++ {
+				ft := genFake(g)
+				for _, pth := range []string{"", "d"} {
+					c := Case{Store: "fake", Fake: ft, Path: pth, Opaque: g.Intn(3), Base: uint32(g.Pick(3, 3, 1) * g.Range(1, 70000)),
+						BSize: int64(g.Range(1, 1<<20)), Fetched: int64(g.Intn(1 << 16))}
+					c.Ops = genOps(g, c, true)
+					emit(c)
+				}
+			}
+			continue
+		}
 		nl := g.Pick(2, 3, 3, 2) + 1
 		var layers [][]TarEnt
 		for i := 0; i < nl; i++ {
@@ -1644,5 +1954,15 @@ func corpus() []Case {
 			Ops: []Op{rd, lk(whPrefix+"f", false), lk("", false), lk("g", true), lk("g", false)}},
 		{Layers: [][]TarEnt{odd}, LI: 0, Path: "", Store: "memory", Opaque: 0, Base: 3, BSize: 9, Fetched: 1,
 			Ops: []Op{lk(estargz.PrefetchLandmark, false), rd, lk(estargz.PrefetchLandmark, false)}},
+		// ids beyond the inode space (fake store): the listing is EIO, a lookup of the big-id entry is EIO, the others still resolve;
+		// the miss path cannot memoise; a big-id whiteout shadowed by a real entry does not disturb anything
+		{Store: "fake", Path: "", Opaque: 1, Base: 9, BSize: 1, Fetched: 0, Fake: &FakeTree{Root: 1, Nodes: []FakeNode{
+			{ID: 1, Mode: 0o755 | uint32(os.ModeDir), NL: 2, Kids: []FakeKid{{"f", 2}, {"big", maxServableID + 1}, {whPrefix + "g", ^uint32(0)}, {"ok", maxServableID}}},
+			{ID: 2, Mode: 0o644, NL: 1}, {ID: maxServableID + 1, Mode: 0o644, NL: 1}, {ID: ^uint32(0), Mode: 0o644}, {ID: maxServableID, Mode: 0o600, Size: -1, UID: -1}}},
+			Ops: []Op{lk("zz", false), rd, lk("f", true), lk("big", true), lk("g", false), lk("ok", true), lk("ok", false), rd, {Op: "getattr"}, {Op: "readlink"}}},
+		{Store: "fake", Path: "", Opaque: 0, Base: 1, BSize: 1, Fetched: 0, Fake: &FakeTree{Root: ^uint32(0), Nodes: []FakeNode{
+			{ID: ^uint32(0), Mode: 0o755 | uint32(os.ModeDir), NL: 2, Kids: []FakeKid{{"f", 2}, {whPrefix + "f", maxServableID + 2}, {"l", 3}}},
+			{ID: 2, Mode: 0o644, NL: 0}, {ID: maxServableID + 2, Mode: 0o644}, {ID: 3, Mode: 0o777 | uint32(os.ModeSymlink), Link: "f", Size: 77}}},
+			Ops: []Op{{Op: "getattr"}, rd, lk("f", true), lk("f", false), lk("l", false), {Op: "state"}}},
 	}
 }
